@@ -19,6 +19,12 @@ let fst = function
 let snd = function
 | (_, y) -> y
 
+(** val length : 'a1 list -> nat **)
+
+let rec length = function
+| [] -> O
+| _ :: l' -> S (length l')
+
 (** val app : 'a1 list -> 'a1 list -> 'a1 list **)
 
 let rec app l m =
@@ -106,6 +112,17 @@ let rec mul n0 m =
   match n0 with
   | O -> O
   | S p -> add m (mul p m)
+
+(** val eqb : nat -> nat -> bool **)
+
+let rec eqb n0 m =
+  match n0 with
+  | O -> (match m with
+          | O -> true
+          | S _ -> false)
+  | S n' -> (match m with
+             | O -> false
+             | S m' -> eqb n' m')
 
 (** val max : nat -> nat -> nat **)
 
@@ -222,6 +239,12 @@ module N =
 let rec map f = function
 | [] -> []
 | a :: t -> (f a) :: (map f t)
+
+(** val flat_map : ('a1 -> 'a2 list) -> 'a1 list -> 'a2 list **)
+
+let rec flat_map f = function
+| [] -> []
+| x :: t -> app (f x) (flat_map f t)
 
 (** val fold_right : ('a2 -> 'a1 -> 'a1) -> 'a1 -> 'a2 list -> 'a1 **)
 
@@ -4221,13 +4244,2316 @@ let k_compound_member_target prog =
     | Some lhs -> negb (simple_member_target lhs)
     | None -> false) prog
 
-(** val known_classes : node -> char list list **)
+(** val optchain_view : node -> (bool * node) option **)
 
-let known_classes prog =
+let optchain_view = function
+| Node (t, cs) ->
+  (match t with
+   | K (k, _, _) ->
+     (match k with
+      | KOptChain ->
+        (match cs with
+         | [] -> None
+         | n0 :: l ->
+           let Node (t0, cs0) = n0 in
+           (match t0 with
+            | Bln optional ->
+              (match cs0 with
+               | [] ->
+                 (match l with
+                  | [] -> None
+                  | base :: l0 ->
+                    (match l0 with
+                     | [] -> Some (optional, base)
+                     | _ :: _ -> None))
+               | _ :: _ -> None)
+            | _ -> None))
+      | _ -> None)
+   | _ -> None)
+
+(** val is_optional_link : node -> bool **)
+
+let is_optional_link n0 =
+  match optchain_view n0 with
+  | Some p -> let (b, _) = p in b
+  | None -> false
+
+(** val has_optional : node -> bool **)
+
+let has_optional n0 =
+  any_node is_optional_link n0
+
+(** val is_oc_target : char list list -> node -> bool **)
+
+let is_oc_target names e =
+  match optchain_view e with
+  | Some p ->
+    let (b, n0) = p in
+    if b
+    then false
+    else let Node (t, cs) = n0 in
+         (match t with
+          | K (k, _, _) ->
+            (match k with
+             | KCall ->
+               (match cs with
+                | [] -> false
+                | _ :: l ->
+                  (match l with
+                   | [] -> false
+                   | callee :: l0 ->
+                     (match l0 with
+                      | [] -> false
+                      | _ :: l1 ->
+                        (match l1 with
+                         | [] -> false
+                         | _ :: l2 ->
+                           (match l2 with
+                            | [] ->
+                              (match optchain_view callee with
+                               | Some p0 ->
+                                 let (_, n1) = p0 in
+                                 let Node (t0, cs0) = n1 in
+                                 (match t0 with
+                                  | K (k0, _, _) ->
+                                    (match k0 with
+                                     | KMember ->
+                                       (match cs0 with
+                                        | [] -> false
+                                        | _ :: l3 ->
+                                          (match l3 with
+                                           | [] -> false
+                                           | prop :: l4 ->
+                                             (match l4 with
+                                              | [] ->
+                                                (match ident_name_sym prop with
+                                                 | Some name ->
+                                                   existsb (eqb0 name) names
+                                                 | None -> false)
+                                              | _ :: _ -> false)))
+                                     | _ -> false)
+                                  | _ -> false)
+                               | None -> false)
+                            | _ :: _ -> false)))))
+             | _ -> false)
+          | _ -> false)
+  | None -> false
+
+(** val spine_target : char list list -> node -> bool **)
+
+let rec spine_target names n0 = match n0 with
+| Node (t, cs) ->
+  (match t with
+   | K (k, _, _) ->
+     (match k with
+      | KCall ->
+        (match cs with
+         | [] -> false
+         | _ :: l ->
+           (match l with
+            | [] -> false
+            | callee :: l0 ->
+              (match l0 with
+               | [] -> false
+               | _ :: l1 ->
+                 (match l1 with
+                  | [] -> false
+                  | _ :: l2 ->
+                    (match l2 with
+                     | [] -> spine_target names callee
+                     | _ :: _ -> false)))))
+      | KMember ->
+        (match cs with
+         | [] -> false
+         | obj :: l ->
+           (match l with
+            | [] -> false
+            | _ :: l0 ->
+              (match l0 with
+               | [] -> spine_target names obj
+               | _ :: _ -> false)))
+      | KOptChain ->
+        (match cs with
+         | [] -> false
+         | _ :: l ->
+           (match l with
+            | [] -> false
+            | base :: l0 ->
+              (match l0 with
+               | [] -> (||) (is_oc_target names n0) (spine_target names base)
+               | _ :: _ -> false)))
+      | _ -> false)
+   | _ -> false)
+
+(** val spine_off : char list list -> bool -> node -> bool **)
+
+let rec spine_off names found n0 = match n0 with
+| Node (t, cs) ->
+  (match t with
+   | K (k, _, _) ->
+     (match k with
+      | KCall ->
+        (match cs with
+         | [] -> false
+         | _ :: l ->
+           (match l with
+            | [] -> false
+            | callee :: l0 ->
+              (match l0 with
+               | [] -> false
+               | args :: l1 ->
+                 (match l1 with
+                  | [] -> false
+                  | _ :: l2 ->
+                    (match l2 with
+                     | [] ->
+                       (||) (has_optional args) (spine_off names found callee)
+                     | _ :: _ -> false)))))
+      | KMember ->
+        (match cs with
+         | [] -> false
+         | obj :: l ->
+           (match l with
+            | [] -> false
+            | prop :: l0 ->
+              (match l0 with
+               | [] -> (||) (has_optional prop) (spine_off names found obj)
+               | _ :: _ -> false)))
+      | KOptChain ->
+        (match cs with
+         | [] -> false
+         | n1 :: l ->
+           let Node (t0, cs0) = n1 in
+           (match t0 with
+            | Bln optional ->
+              (match cs0 with
+               | [] ->
+                 (match l with
+                  | [] -> false
+                  | base :: l0 ->
+                    (match l0 with
+                     | [] ->
+                       let found' = (||) found (is_oc_target names n0) in
+                       if (&&) found' optional
+                       then false
+                       else spine_off names found' base
+                     | _ :: _ -> false))
+               | _ :: _ -> false)
+            | _ -> false))
+      | _ -> false)
+   | _ -> false)
+
+(** val strictly_inside : (node -> bool) -> node -> bool **)
+
+let strictly_inside p = function
+| Node (_, cs) -> existsb (any_node p) cs
+
+(** val oc_defect : char list list -> node -> bool **)
+
+let oc_defect names e =
+  if spine_target names e
+  then spine_off names false e
+  else strictly_inside (is_oc_target names) e
+
+(** val k_optchain_offspine : char list list -> node -> bool **)
+
+let k_optchain_offspine names prog =
+  any_node (fun e ->
+    match optchain_view e with
+    | Some _ -> oc_defect names e
+    | None -> false) prog
+
+(** val known_classes : char list list -> node -> char list list **)
+
+let known_classes names prog =
   app
     (if k_compound_target_instrumentable prog
      then ('c'::('o'::('m'::('p'::('o'::('u'::('n'::('d'::('-'::('t'::('a'::('r'::('g'::('e'::('t'::('-'::('i'::('n'::('s'::('t'::('r'::('u'::('m'::('e'::('n'::('t'::('a'::('b'::('l'::('e'::[])))))))))))))))))))))))))))))) :: []
      else [])
-    (if k_compound_member_target prog
-     then ('c'::('o'::('m'::('p'::('o'::('u'::('n'::('d'::('-'::('m'::('e'::('m'::('b'::('e'::('r'::('-'::('t'::('a'::('r'::('g'::('e'::('t'::[])))))))))))))))))))))) :: []
-     else [])
+    (app
+      (if k_compound_member_target prog
+       then ('c'::('o'::('m'::('p'::('o'::('u'::('n'::('d'::('-'::('m'::('e'::('m'::('b'::('e'::('r'::('-'::('t'::('a'::('r'::('g'::('e'::('t'::[])))))))))))))))))))))) :: []
+       else [])
+      (if k_optchain_offspine names prog
+       then ('o'::('p'::('t'::('c'::('h'::('a'::('i'::('n'::('-'::('o'::('f'::('f'::('s'::('p'::('i'::('n'::('e'::[]))))))))))))))))) :: []
+       else []))
+
+(** val is_directive : node -> bool **)
+
+let is_directive = function
+| Node (t, cs) ->
+  (match t with
+   | K (k, _, _) ->
+     (match k with
+      | KExprStmt ->
+        (match cs with
+         | [] -> false
+         | n0 :: l ->
+           let Node (t0, _) = n0 in
+           (match t0 with
+            | K (k0, _, _) ->
+              (match k0 with
+               | KStr -> (match l with
+                          | [] -> true
+                          | _ :: _ -> false)
+               | _ -> false)
+            | _ -> false))
+      | _ -> false)
+   | _ -> false)
+
+(** val directives_of : node list -> node list **)
+
+let rec directives_of = function
+| [] -> []
+| s :: rest -> if is_directive s then s :: (directives_of rest) else []
+
+(** val after_directives : node list -> node list **)
+
+let rec after_directives stmts = match stmts with
+| [] -> []
+| s :: rest -> if is_directive s then after_directives rest else stmts
+
+(** val list_eqb : node list -> node list -> bool **)
+
+let rec list_eqb a b =
+  match a with
+  | [] -> (match b with
+           | [] -> true
+           | _ :: _ -> false)
+  | x :: a' ->
+    (match b with
+     | [] -> false
+     | y :: b' -> (&&) (node_eqb x y) (list_eqb a' b'))
+
+(** val is_injected_let : char list -> node -> bool **)
+
+let is_injected_let vp = function
+| Node (t, cs) ->
+  (match t with
+   | K (k, _, _) ->
+     (match k with
+      | KVarDecl ->
+        (match cs with
+         | [] -> false
+         | _ :: l ->
+           (match l with
+            | [] -> false
+            | n0 :: l0 ->
+              let Node (t0, cs0) = n0 in
+              (match t0 with
+               | Str s ->
+                 (match s with
+                  | [] -> false
+                  | a::s0 ->
+                    (* If this appears, you're using Ascii internals. Please don't *)
+ (fun f c ->
+  let n = Char.code c in
+  let h i = (n land (1 lsl i)) <> 0 in
+  f (h 0) (h 1) (h 2) (h 3) (h 4) (h 5) (h 6) (h 7))
+                      (fun b b0 b1 b2 b3 b4 b5 b6 ->
+                      if b
+                      then false
+                      else if b0
+                           then false
+                           else if b1
+                                then if b2
+                                     then if b3
+                                          then false
+                                          else if b4
+                                               then if b5
+                                                    then if b6
+                                                         then false
+                                                         else (match s0 with
+                                                               | [] -> false
+                                                               | a0::s1 ->
+                                                                 (* If this appears, you're using Ascii internals. Please don't *)
+ (fun f c ->
+  let n = Char.code c in
+  let h i = (n land (1 lsl i)) <> 0 in
+  f (h 0) (h 1) (h 2) (h 3) (h 4) (h 5) (h 6) (h 7))
+                                                                   (fun b7 b8 b9 b10 b11 b12 b13 b14 ->
+                                                                   if b7
+                                                                   then 
+                                                                    if b8
+                                                                    then false
+                                                                    else 
+                                                                    if b9
+                                                                    then 
+                                                                    if b10
+                                                                    then false
+                                                                    else 
+                                                                    if b11
+                                                                    then false
+                                                                    else 
+                                                                    if b12
+                                                                    then 
+                                                                    if b13
+                                                                    then 
+                                                                    if b14
+                                                                    then false
+                                                                    else 
+                                                                    (match s1 with
+                                                                    | [] ->
+                                                                    false
+                                                                    | a1::s2 ->
+                                                                    (* If this appears, you're using Ascii internals. Please don't *)
+ (fun f c ->
+  let n = Char.code c in
+  let h i = (n land (1 lsl i)) <> 0 in
+  f (h 0) (h 1) (h 2) (h 3) (h 4) (h 5) (h 6) (h 7))
+                                                                    (fun b15 b16 b17 b18 b19 b20 b21 b22 ->
+                                                                    if b15
+                                                                    then false
+                                                                    else 
+                                                                    if b16
+                                                                    then false
+                                                                    else 
+                                                                    if b17
+                                                                    then 
+                                                                    if b18
+                                                                    then false
+                                                                    else 
+                                                                    if b19
+                                                                    then 
+                                                                    if b20
+                                                                    then 
+                                                                    if b21
+                                                                    then 
+                                                                    if b22
+                                                                    then false
+                                                                    else 
+                                                                    (match s2 with
+                                                                    | [] ->
+                                                                    (match cs0 with
+                                                                    | [] ->
+                                                                    (match l0 with
+                                                                    | [] ->
+                                                                    false
+                                                                    | _ :: l1 ->
+                                                                    (match l1 with
+                                                                    | [] ->
+                                                                    false
+                                                                    | n2 :: l2 ->
+                                                                    let Node (
+                                                                    t1, decls) =
+                                                                    n2
+                                                                    in
+                                                                    (
+                                                                    match t1 with
+                                                                    | Lst ->
+                                                                    (match l2 with
+                                                                    | [] ->
+                                                                    (match decls with
+                                                                    | [] ->
+                                                                    false
+                                                                    | _ :: _ ->
+                                                                    forallb
+                                                                    (fun d ->
+                                                                    let Node (
+                                                                    t2, cs1) =
+                                                                    d
+                                                                    in
+                                                                    (
+                                                                    match t2 with
+                                                                    | K (
+                                                                    k0, _, _) ->
+                                                                    (match k0 with
+                                                                    | KVarDeclarator ->
+                                                                    (match cs1 with
+                                                                    | [] ->
+                                                                    false
+                                                                    | id :: l3 ->
+                                                                    (match l3 with
+                                                                    | [] ->
+                                                                    false
+                                                                    | n1 :: l4 ->
+                                                                    let Node (
+                                                                    t3, cs2) =
+                                                                    n1
+                                                                    in
+                                                                    (
+                                                                    match t3 with
+                                                                    | Nul ->
+                                                                    (match cs2 with
+                                                                    | [] ->
+                                                                    (match l4 with
+                                                                    | [] ->
+                                                                    false
+                                                                    | _ :: l5 ->
+                                                                    (match l5 with
+                                                                    | [] ->
+                                                                    (match 
+                                                                    ident_sym
+                                                                    id with
+                                                                    | Some s3 ->
+                                                                    prefix vp
+                                                                    s3
+                                                                    | None ->
+                                                                    false)
+                                                                    | _ :: _ ->
+                                                                    false))
+                                                                    | _ :: _ ->
+                                                                    false)
+                                                                    | _ ->
+                                                                    false)))
+                                                                    | _ ->
+                                                                    false)
+                                                                    | _ ->
+                                                                    false))
+                                                                    decls)
+                                                                    | _ :: _ ->
+                                                                    false)
+                                                                    | _ ->
+                                                                    false)))
+                                                                    | _ :: _ ->
+                                                                    false)
+                                                                    | _::_ ->
+                                                                    false)
+                                                                    else false
+                                                                    else false
+                                                                    else false
+                                                                    else false)
+                                                                    a1)
+                                                                    else false
+                                                                    else false
+                                                                    else false
+                                                                   else false)
+                                                                   a0)
+                                                    else false
+                                               else false
+                                     else false
+                                else false)
+                      a)
+               | _ -> false)))
+      | _ -> false)
+   | _ -> false)
+
+(** val strip_prefix : node list -> node list -> node list option **)
+
+let rec strip_prefix pre stmts =
+  match pre with
+  | [] -> Some stmts
+  | p :: pre' ->
+    (match stmts with
+     | [] -> None
+     | s :: rest -> if node_eqb p s then strip_prefix pre' rest else None)
+
+(** val strip_injected : char list -> node list -> node list -> node list **)
+
+let strip_injected vp prologue stmts =
+  let stmts1 =
+    match prologue with
+    | [] -> stmts
+    | _ :: _ ->
+      (match strip_prefix prologue stmts with
+       | Some r -> r
+       | None -> stmts)
+  in
+  (match stmts1 with
+   | [] -> []
+   | s :: rest -> if is_injected_let vp s then rest else stmts1)
+
+(** val first_span : node list -> sp option **)
+
+let first_span = function
+| [] -> None
+| s :: _ -> Some (span_of s)
+
+(** val opt_span_eqb : sp option -> sp option -> bool **)
+
+let opt_span_eqb a b =
+  match a with
+  | Some x ->
+    (match b with
+     | Some y -> (&&) (N.eqb (fst x) (fst y)) (N.eqb (snd x) (snd y))
+     | None -> false)
+  | None -> (match b with
+             | Some _ -> false
+             | None -> true)
+
+(** val stmts_dir_ok :
+    char list -> node list -> node list -> node list -> bool **)
+
+let stmts_dir_ok vp prologue ins outs =
+  (&&) (list_eqb (directives_of ins) (directives_of outs))
+    (let rest_out = strip_injected vp prologue (after_directives outs) in
+     let rest_in = after_directives ins in
+     (&&)
+       ((&&) (eqb (length rest_in) (length rest_out))
+         (opt_span_eqb (first_span rest_in) (first_span rest_out)))
+       (negb (existsb (is_injected_let vp) rest_out)))
+
+(** val blocks_of : node -> (sp * node list) list **)
+
+let rec blocks_of = function
+| Node (t, cs) ->
+  app
+    (match t with
+     | K (k, lo, hi) ->
+       (match k with
+        | KBlock ->
+          (match cs with
+           | [] -> []
+           | _ :: l ->
+             (match l with
+              | [] -> []
+              | n1 :: l0 ->
+                let Node (t0, stmts) = n1 in
+                (match t0 with
+                 | Lst ->
+                   (match l0 with
+                    | [] ->
+                      if is_dummy (lo, hi)
+                      then []
+                      else ((lo, hi), stmts) :: []
+                    | _ :: _ -> [])
+                 | _ -> [])))
+        | _ -> [])
+     | _ -> [])
+    (let rec go = function
+     | [] -> []
+     | c :: l' -> app (blocks_of c) (go l')
+     in go cs)
+
+(** val find_block : sp -> (sp * node list) list -> node list option **)
+
+let rec find_block s = function
+| [] -> None
+| p :: rest ->
+  let (s', stmts) = p in
+  if (&&) (N.eqb (fst s) (fst s')) (N.eqb (snd s) (snd s'))
+  then Some stmts
+  else find_block s rest
+
+(** val program_body : node -> node list **)
+
+let program_body = function
+| Node (t, cs) ->
+  (match t with
+   | K (_, _, _) ->
+     (match cs with
+      | [] -> []
+      | n0 :: _ ->
+        let Node (t0, body) = n0 in (match t0 with
+                                     | Lst -> body
+                                     | _ -> []))
+   | _ -> [])
+
+(** val blocks_of_list : node list -> (sp * node list) list **)
+
+let blocks_of_list l =
+  flat_map blocks_of l
+
+(** val directives_ok :
+    char list -> node list -> bool -> node -> node -> bool **)
+
+let directives_ok vp prologue modified pin pout =
+  let pro = if modified then prologue else [] in
+  let out_body = program_body pout in
+  let out_rest =
+    match pro with
+    | [] -> after_directives out_body
+    | _ :: _ ->
+      (match strip_prefix pro (after_directives out_body) with
+       | Some r -> r
+       | None -> after_directives out_body)
+  in
+  (&&) (stmts_dir_ok vp pro (program_body pin) out_body)
+    (let tin = blocks_of pin in
+     let tout = blocks_of_list out_rest in
+     (&&)
+       (forallb (fun b ->
+         match find_block (fst b) tin with
+         | Some ins -> stmts_dir_ok vp [] ins (snd b)
+         | None -> false) tout)
+       (forallb (fun b ->
+         match find_block (fst b) tout with
+         | Some _ -> true
+         | None -> false) tin))
+
+(** val tag_eqb_nospan : tag -> tag -> bool **)
+
+let tag_eqb_nospan a b =
+  match a with
+  | K (k1, _, _) ->
+    (match b with
+     | K (k2, _, _) -> kind_eqb k1 k2
+     | _ -> tag_eqb a b)
+  | _ -> tag_eqb a b
+
+(** val node_eqb_nospan : node -> node -> bool **)
+
+let rec node_eqb_nospan a b =
+  let Node (ta, ca) = a in
+  let Node (tb, cb) = b in
+  (&&) (tag_eqb_nospan ta tb)
+    (let rec go x y =
+       match x with
+       | [] -> (match y with
+                | [] -> true
+                | _ :: _ -> false)
+       | p :: x' ->
+         (match y with
+          | [] -> false
+          | q :: y' -> (&&) (node_eqb_nospan p q) (go x' y'))
+     in go ca cb)
+
+(** val assoc_str : char list -> (char list * 'a1) list -> 'a1 option **)
+
+let rec assoc_str s = function
+| [] -> None
+| p :: rest -> let (k, v) = p in if eqb0 s k then Some v else assoc_str s rest
+
+(** val is_temp_ident : char list -> node -> char list option **)
+
+let is_temp_ident vp n0 = match n0 with
+| Node (t, _) ->
+  (match t with
+   | K (k, _, _) ->
+     (match k with
+      | KIdent ->
+        (match ident_sym n0 with
+         | Some s -> if prefix vp s then Some s else None
+         | None -> None)
+      | _ -> None)
+   | _ -> None)
+
+(** val subst : char list -> (char list * node) list -> node -> node **)
+
+let rec subst vp env n0 =
+  match is_temp_ident vp n0 with
+  | Some s -> (match assoc_str s env with
+               | Some r -> r
+               | None -> n0)
+  | None -> let Node (t, cs) = n0 in Node (t, (map (subst vp env) cs))
+
+(** val clean_rhs : node -> node **)
+
+let clean_rhs rhs = match rhs with
+| Node (t, cs) ->
+  (match t with
+   | K (k, lo, hi) ->
+     (match k with
+      | KArray ->
+        (match cs with
+         | [] -> rhs
+         | n0 :: l ->
+           let Node (t0, cs0) = n0 in
+           (match t0 with
+            | Lst ->
+              (match cs0 with
+               | [] -> rhs
+               | n1 :: l0 ->
+                 let Node (t1, cs1) = n1 in
+                 (match t1 with
+                  | Obj ->
+                    (match cs1 with
+                     | [] -> rhs
+                     | n2 :: l1 ->
+                       let Node (t2, _) = n2 in
+                       (match t2 with
+                        | Obj ->
+                          (match l1 with
+                           | [] -> rhs
+                           | x :: l2 ->
+                             (match l2 with
+                              | [] ->
+                                (match l0 with
+                                 | [] ->
+                                   (match l with
+                                    | [] ->
+                                      if is_dummy (lo, hi) then x else rhs
+                                    | _ :: _ -> rhs)
+                                 | _ :: _ -> rhs)
+                              | _ :: _ -> rhs))
+                        | _ -> rhs))
+                  | _ -> rhs))
+            | _ -> rhs))
+      | _ -> rhs)
+   | _ -> rhs)
+
+(** val split_injected :
+    char list -> node list -> ((char list * node) list * node) option **)
+
+let rec split_injected vp = function
+| [] -> None
+| e :: rest ->
+  (match rest with
+   | [] -> Some ([], e)
+   | _ :: _ ->
+     let Node (t, cs) = e in
+     (match t with
+      | K (k, _, _) ->
+        (match k with
+         | KAssign ->
+           (match cs with
+            | [] -> None
+            | n0 :: l ->
+              let Node (t0, cs0) = n0 in
+              (match t0 with
+               | Str s ->
+                 (match s with
+                  | [] -> None
+                  | a::s0 ->
+                    (* If this appears, you're using Ascii internals. Please don't *)
+ (fun f c ->
+  let n = Char.code c in
+  let h i = (n land (1 lsl i)) <> 0 in
+  f (h 0) (h 1) (h 2) (h 3) (h 4) (h 5) (h 6) (h 7))
+                      (fun b b0 b1 b2 b3 b4 b5 b6 ->
+                      if b
+                      then if b0
+                           then None
+                           else if b1
+                                then if b2
+                                     then if b3
+                                          then if b4
+                                               then if b5
+                                                    then None
+                                                    else if b6
+                                                         then None
+                                                         else (match s0 with
+                                                               | [] ->
+                                                                 (match cs0 with
+                                                                  | [] ->
+                                                                    (match l with
+                                                                    | [] ->
+                                                                    None
+                                                                    | lhs :: l0 ->
+                                                                    (match l0 with
+                                                                    | [] ->
+                                                                    None
+                                                                    | rhs :: l1 ->
+                                                                    (match l1 with
+                                                                    | [] ->
+                                                                    (match 
+                                                                    is_temp_ident
+                                                                    vp lhs with
+                                                                    | Some t1 ->
+                                                                    (match 
+                                                                    split_injected
+                                                                    vp rest with
+                                                                    | Some p ->
+                                                                    let (
+                                                                    asg, last) =
+                                                                    p
+                                                                    in
+                                                                    Some
+                                                                    (((t1,
+                                                                    rhs) :: asg),
+                                                                    last)
+                                                                    | None ->
+                                                                    None)
+                                                                    | None ->
+                                                                    None)
+                                                                    | _ :: _ ->
+                                                                    None)))
+                                                                  | _ :: _ ->
+                                                                    None)
+                                                               | _::_ -> None)
+                                               else None
+                                          else None
+                                     else None
+                                else None
+                      else None)
+                      a)
+               | _ -> None))
+         | _ -> None)
+      | _ -> None))
+
+(** val build_env :
+    char list -> (char list * node) list -> (char list * node) list ->
+    (char list * node) list **)
+
+let rec build_env vp asg env =
+  match asg with
+  | [] -> env
+  | p :: rest ->
+    let (t, rhs) = p in
+    build_env vp rest ((t, (clean_rhs (subst vp env rhs))) :: env)
+
+(** val same_receiver : char list -> node -> node -> bool **)
+
+let same_receiver vp a b =
+  match is_temp_ident vp a with
+  | Some x ->
+    (match is_temp_ident vp b with
+     | Some y -> eqb0 x y
+     | None -> false)
+  | None ->
+    (match is_temp_ident vp b with
+     | Some _ -> false
+     | None -> (&&) (is_lit a) (node_eqb a b))
+
+(** val uncall : char list -> (char list * node) list -> node -> node **)
+
+let uncall vp raw e = match e with
+| Node (t, cs) ->
+  (match t with
+   | K (k, lo, hi) ->
+     (match k with
+      | KCall ->
+        (match cs with
+         | [] -> e
+         | cx :: l ->
+           (match l with
+            | [] -> e
+            | n0 :: l0 ->
+              let Node (t0, cs0) = n0 in
+              (match t0 with
+               | K (k0, _, _) ->
+                 (match k0 with
+                  | KMember ->
+                    (match cs0 with
+                     | [] -> e
+                     | f :: l1 ->
+                       (match l1 with
+                        | [] -> e
+                        | callprop :: l2 ->
+                          (match l2 with
+                           | [] ->
+                             (match l0 with
+                              | [] -> e
+                              | n1 :: l3 ->
+                                let Node (t1, cs1) = n1 in
+                                (match t1 with
+                                 | Lst ->
+                                   (match cs1 with
+                                    | [] -> e
+                                    | n2 :: rest ->
+                                      let Node (t2, cs2) = n2 in
+                                      (match t2 with
+                                       | Obj ->
+                                         (match cs2 with
+                                          | [] -> e
+                                          | n3 :: l4 ->
+                                            let Node (t3, cs3) = n3 in
+                                            (match t3 with
+                                             | Nul ->
+                                               (match cs3 with
+                                                | [] ->
+                                                  (match l4 with
+                                                   | [] -> e
+                                                   | this :: l5 ->
+                                                     (match l5 with
+                                                      | [] ->
+                                                        (match l3 with
+                                                         | [] -> e
+                                                         | targs :: l6 ->
+                                                           (match l6 with
+                                                            | [] ->
+                                                              (match 
+                                                               is_temp_ident
+                                                                 vp f with
+                                                               | Some fname ->
+                                                                 (match 
+                                                                  ident_name_sym
+                                                                    callprop with
+                                                                  | Some s ->
+                                                                    (match s with
+                                                                    | [] -> e
+                                                                    | a::s0 ->
+                                                                    (* If this appears, you're using Ascii internals. Please don't *)
+ (fun f c ->
+  let n = Char.code c in
+  let h i = (n land (1 lsl i)) <> 0 in
+  f (h 0) (h 1) (h 2) (h 3) (h 4) (h 5) (h 6) (h 7))
+                                                                    (fun b b0 b1 b2 b3 b4 b5 b6 ->
+                                                                    if b
+                                                                    then 
+                                                                    if b0
+                                                                    then 
+                                                                    if b1
+                                                                    then e
+                                                                    else 
+                                                                    if b2
+                                                                    then e
+                                                                    else 
+                                                                    if b3
+                                                                    then e
+                                                                    else 
+                                                                    if b4
+                                                                    then 
+                                                                    if b5
+                                                                    then 
+                                                                    if b6
+                                                                    then e
+                                                                    else 
+                                                                    (match s0 with
+                                                                    | [] -> e
+                                                                    | a0::s1 ->
+                                                                    (* If this appears, you're using Ascii internals. Please don't *)
+ (fun f c ->
+  let n = Char.code c in
+  let h i = (n land (1 lsl i)) <> 0 in
+  f (h 0) (h 1) (h 2) (h 3) (h 4) (h 5) (h 6) (h 7))
+                                                                    (fun b7 b8 b9 b10 b11 b12 b13 b14 ->
+                                                                    if b7
+                                                                    then 
+                                                                    if b8
+                                                                    then e
+                                                                    else 
+                                                                    if b9
+                                                                    then e
+                                                                    else 
+                                                                    if b10
+                                                                    then e
+                                                                    else 
+                                                                    if b11
+                                                                    then e
+                                                                    else 
+                                                                    if b12
+                                                                    then 
+                                                                    if b13
+                                                                    then 
+                                                                    if b14
+                                                                    then e
+                                                                    else 
+                                                                    (match s1 with
+                                                                    | [] -> e
+                                                                    | a1::s2 ->
+                                                                    (* If this appears, you're using Ascii internals. Please don't *)
+ (fun f c ->
+  let n = Char.code c in
+  let h i = (n land (1 lsl i)) <> 0 in
+  f (h 0) (h 1) (h 2) (h 3) (h 4) (h 5) (h 6) (h 7))
+                                                                    (fun b15 b16 b17 b18 b19 b20 b21 b22 ->
+                                                                    if b15
+                                                                    then e
+                                                                    else 
+                                                                    if b16
+                                                                    then e
+                                                                    else 
+                                                                    if b17
+                                                                    then 
+                                                                    if b18
+                                                                    then 
+                                                                    if b19
+                                                                    then e
+                                                                    else 
+                                                                    if b20
+                                                                    then 
+                                                                    if b21
+                                                                    then 
+                                                                    if b22
+                                                                    then e
+                                                                    else 
+                                                                    (match s2 with
+                                                                    | [] -> e
+                                                                    | a2::s3 ->
+                                                                    (* If this appears, you're using Ascii internals. Please don't *)
+ (fun f c ->
+  let n = Char.code c in
+  let h i = (n land (1 lsl i)) <> 0 in
+  f (h 0) (h 1) (h 2) (h 3) (h 4) (h 5) (h 6) (h 7))
+                                                                    (fun b23 b24 b25 b26 b27 b28 b29 b30 ->
+                                                                    if b23
+                                                                    then e
+                                                                    else 
+                                                                    if b24
+                                                                    then e
+                                                                    else 
+                                                                    if b25
+                                                                    then 
+                                                                    if b26
+                                                                    then 
+                                                                    if b27
+                                                                    then e
+                                                                    else 
+                                                                    if b28
+                                                                    then 
+                                                                    if b29
+                                                                    then 
+                                                                    if b30
+                                                                    then e
+                                                                    else 
+                                                                    (match s3 with
+                                                                    | [] ->
+                                                                    (match 
+                                                                    assoc_str
+                                                                    fname raw with
+                                                                    | Some n4 ->
+                                                                    let Node (
+                                                                    t4, cs4) =
+                                                                    n4
+                                                                    in
+                                                                    (
+                                                                    match t4 with
+                                                                    | K (
+                                                                    k1, mlo,
+                                                                    mhi) ->
+                                                                    (match k1 with
+                                                                    | KMember ->
+                                                                    (match cs4 with
+                                                                    | [] -> e
+                                                                    | recv :: l7 ->
+                                                                    (match l7 with
+                                                                    | [] -> e
+                                                                    | prop :: l8 ->
+                                                                    (match l8 with
+                                                                    | [] ->
+                                                                    if 
+                                                                    same_receiver
+                                                                    vp recv
+                                                                    this
+                                                                    then 
+                                                                    Node ((K
+                                                                    (KCall,
+                                                                    lo, hi)),
+                                                                    (cx :: ((Node
+                                                                    ((K
+                                                                    (KMember,
+                                                                    mlo,
+                                                                    mhi)),
+                                                                    (this :: (prop :: [])))) :: ((Node
+                                                                    (Lst,
+                                                                    rest)) :: (targs :: [])))))
+                                                                    else e
+                                                                    | _ :: _ ->
+                                                                    e)))
+                                                                    | _ -> e)
+                                                                    | _ -> e)
+                                                                    | None ->
+                                                                    e)
+                                                                    | _::_ ->
+                                                                    e)
+                                                                    else e
+                                                                    else e
+                                                                    else e
+                                                                    else e)
+                                                                    a2)
+                                                                    else e
+                                                                    else e
+                                                                    else e
+                                                                    else e)
+                                                                    a1)
+                                                                    else e
+                                                                    else e
+                                                                    else e)
+                                                                    a0)
+                                                                    else e
+                                                                    else e
+                                                                    else e
+                                                                    else e)
+                                                                    a)
+                                                                  | None -> e)
+                                                               | None -> e)
+                                                            | _ :: _ -> e))
+                                                      | _ :: _ -> e))
+                                                | _ :: _ -> e)
+                                             | _ -> e))
+                                       | _ -> e))
+                                 | _ -> e))
+                           | _ :: _ -> e)))
+                  | _ -> e)
+               | _ -> e)))
+      | _ -> e)
+   | _ -> e)
+
+(** val guard_parts : char list -> node -> (char list * node) option **)
+
+let guard_parts vp = function
+| Node (t, cs) ->
+  (match t with
+   | K (k, _, _) ->
+     (match k with
+      | KCond ->
+        (match cs with
+         | [] -> None
+         | n0 :: l ->
+           let Node (t0, cs0) = n0 in
+           (match t0 with
+            | K (k0, _, _) ->
+              (match k0 with
+               | KBin ->
+                 (match cs0 with
+                  | [] -> None
+                  | n1 :: l0 ->
+                    let Node (t1, cs1) = n1 in
+                    (match t1 with
+                     | Str s ->
+                       (match s with
+                        | [] -> None
+                        | a::s0 ->
+                          (* If this appears, you're using Ascii internals. Please don't *)
+ (fun f c ->
+  let n = Char.code c in
+  let h i = (n land (1 lsl i)) <> 0 in
+  f (h 0) (h 1) (h 2) (h 3) (h 4) (h 5) (h 6) (h 7))
+                            (fun b b0 b1 b2 b3 b4 b5 b6 ->
+                            if b
+                            then if b0
+                                 then None
+                                 else if b1
+                                      then if b2
+                                           then if b3
+                                                then if b4
+                                                     then if b5
+                                                          then None
+                                                          else if b6
+                                                               then None
+                                                               else (match s0 with
+                                                                    | [] ->
+                                                                    None
+                                                                    | a0::s1 ->
+                                                                    (* If this appears, you're using Ascii internals. Please don't *)
+ (fun f c ->
+  let n = Char.code c in
+  let h i = (n land (1 lsl i)) <> 0 in
+  f (h 0) (h 1) (h 2) (h 3) (h 4) (h 5) (h 6) (h 7))
+                                                                    (fun b7 b8 b9 b10 b11 b12 b13 b14 ->
+                                                                    if b7
+                                                                    then 
+                                                                    if b8
+                                                                    then None
+                                                                    else 
+                                                                    if b9
+                                                                    then 
+                                                                    if b10
+                                                                    then 
+                                                                    if b11
+                                                                    then 
+                                                                    if b12
+                                                                    then 
+                                                                    if b13
+                                                                    then None
+                                                                    else 
+                                                                    if b14
+                                                                    then None
+                                                                    else 
+                                                                    (match s1 with
+                                                                    | [] ->
+                                                                    (match cs1 with
+                                                                    | [] ->
+                                                                    (match l0 with
+                                                                    | [] ->
+                                                                    None
+                                                                    | g :: l1 ->
+                                                                    (match l1 with
+                                                                    | [] ->
+                                                                    None
+                                                                    | n2 :: l2 ->
+                                                                    let Node (
+                                                                    t2, _) =
+                                                                    n2
+                                                                    in
+                                                                    (
+                                                                    match t2 with
+                                                                    | K (
+                                                                    k1, _, _) ->
+                                                                    (match k1 with
+                                                                    | KNullLit ->
+                                                                    (match l2 with
+                                                                    | [] ->
+                                                                    (match l with
+                                                                    | [] ->
+                                                                    None
+                                                                    | u :: l3 ->
+                                                                    (match l3 with
+                                                                    | [] ->
+                                                                    None
+                                                                    | alt :: l4 ->
+                                                                    (match l4 with
+                                                                    | [] ->
+                                                                    (match 
+                                                                    is_temp_ident
+                                                                    vp g with
+                                                                    | Some t3 ->
+                                                                    (match 
+                                                                    ident_sym
+                                                                    u with
+                                                                    | Some s2 ->
+                                                                    (match s2 with
+                                                                    | [] ->
+                                                                    None
+                                                                    | a1::s3 ->
+                                                                    (* If this appears, you're using Ascii internals. Please don't *)
+ (fun f c ->
+  let n = Char.code c in
+  let h i = (n land (1 lsl i)) <> 0 in
+  f (h 0) (h 1) (h 2) (h 3) (h 4) (h 5) (h 6) (h 7))
+                                                                    (fun b15 b16 b17 b18 b19 b20 b21 b22 ->
+                                                                    if b15
+                                                                    then 
+                                                                    if b16
+                                                                    then None
+                                                                    else 
+                                                                    if b17
+                                                                    then 
+                                                                    if b18
+                                                                    then None
+                                                                    else 
+                                                                    if b19
+                                                                    then 
+                                                                    if b20
+                                                                    then 
+                                                                    if b21
+                                                                    then 
+                                                                    if b22
+                                                                    then None
+                                                                    else 
+                                                                    (match s3 with
+                                                                    | [] ->
+                                                                    None
+                                                                    | a2::s4 ->
+                                                                    (* If this appears, you're using Ascii internals. Please don't *)
+ (fun f c ->
+  let n = Char.code c in
+  let h i = (n land (1 lsl i)) <> 0 in
+  f (h 0) (h 1) (h 2) (h 3) (h 4) (h 5) (h 6) (h 7))
+                                                                    (fun b23 b24 b25 b26 b27 b28 b29 b30 ->
+                                                                    if b23
+                                                                    then None
+                                                                    else 
+                                                                    if b24
+                                                                    then 
+                                                                    if b25
+                                                                    then 
+                                                                    if b26
+                                                                    then 
+                                                                    if b27
+                                                                    then None
+                                                                    else 
+                                                                    if b28
+                                                                    then 
+                                                                    if b29
+                                                                    then 
+                                                                    if b30
+                                                                    then None
+                                                                    else 
+                                                                    (match s4 with
+                                                                    | [] ->
+                                                                    None
+                                                                    | a3::s5 ->
+                                                                    (* If this appears, you're using Ascii internals. Please don't *)
+ (fun f c ->
+  let n = Char.code c in
+  let h i = (n land (1 lsl i)) <> 0 in
+  f (h 0) (h 1) (h 2) (h 3) (h 4) (h 5) (h 6) (h 7))
+                                                                    (fun b31 b32 b33 b34 b35 b36 b37 b38 ->
+                                                                    if b31
+                                                                    then None
+                                                                    else 
+                                                                    if b32
+                                                                    then None
+                                                                    else 
+                                                                    if b33
+                                                                    then 
+                                                                    if b34
+                                                                    then None
+                                                                    else 
+                                                                    if b35
+                                                                    then None
+                                                                    else 
+                                                                    if b36
+                                                                    then 
+                                                                    if b37
+                                                                    then 
+                                                                    if b38
+                                                                    then None
+                                                                    else 
+                                                                    (match s5 with
+                                                                    | [] ->
+                                                                    None
+                                                                    | a4::s6 ->
+                                                                    (* If this appears, you're using Ascii internals. Please don't *)
+ (fun f c ->
+  let n = Char.code c in
+  let h i = (n land (1 lsl i)) <> 0 in
+  f (h 0) (h 1) (h 2) (h 3) (h 4) (h 5) (h 6) (h 7))
+                                                                    (fun b39 b40 b41 b42 b43 b44 b45 b46 ->
+                                                                    if b39
+                                                                    then 
+                                                                    if b40
+                                                                    then None
+                                                                    else 
+                                                                    if b41
+                                                                    then 
+                                                                    if b42
+                                                                    then None
+                                                                    else 
+                                                                    if b43
+                                                                    then None
+                                                                    else 
+                                                                    if b44
+                                                                    then 
+                                                                    if b45
+                                                                    then 
+                                                                    if b46
+                                                                    then None
+                                                                    else 
+                                                                    (match s6 with
+                                                                    | [] ->
+                                                                    None
+                                                                    | a5::s7 ->
+                                                                    (* If this appears, you're using Ascii internals. Please don't *)
+ (fun f c ->
+  let n = Char.code c in
+  let h i = (n land (1 lsl i)) <> 0 in
+  f (h 0) (h 1) (h 2) (h 3) (h 4) (h 5) (h 6) (h 7))
+                                                                    (fun b47 b48 b49 b50 b51 b52 b53 b54 ->
+                                                                    if b47
+                                                                    then None
+                                                                    else 
+                                                                    if b48
+                                                                    then 
+                                                                    if b49
+                                                                    then 
+                                                                    if b50
+                                                                    then None
+                                                                    else 
+                                                                    if b51
+                                                                    then None
+                                                                    else 
+                                                                    if b52
+                                                                    then 
+                                                                    if b53
+                                                                    then 
+                                                                    if b54
+                                                                    then None
+                                                                    else 
+                                                                    (match s7 with
+                                                                    | [] ->
+                                                                    None
+                                                                    | a6::s8 ->
+                                                                    (* If this appears, you're using Ascii internals. Please don't *)
+ (fun f c ->
+  let n = Char.code c in
+  let h i = (n land (1 lsl i)) <> 0 in
+  f (h 0) (h 1) (h 2) (h 3) (h 4) (h 5) (h 6) (h 7))
+                                                                    (fun b55 b56 b57 b58 b59 b60 b61 b62 ->
+                                                                    if b55
+                                                                    then 
+                                                                    if b56
+                                                                    then None
+                                                                    else 
+                                                                    if b57
+                                                                    then None
+                                                                    else 
+                                                                    if b58
+                                                                    then 
+                                                                    if b59
+                                                                    then None
+                                                                    else 
+                                                                    if b60
+                                                                    then 
+                                                                    if b61
+                                                                    then 
+                                                                    if b62
+                                                                    then None
+                                                                    else 
+                                                                    (match s8 with
+                                                                    | [] ->
+                                                                    None
+                                                                    | a7::s9 ->
+                                                                    (* If this appears, you're using Ascii internals. Please don't *)
+ (fun f c ->
+  let n = Char.code c in
+  let h i = (n land (1 lsl i)) <> 0 in
+  f (h 0) (h 1) (h 2) (h 3) (h 4) (h 5) (h 6) (h 7))
+                                                                    (fun b63 b64 b65 b66 b67 b68 b69 b70 ->
+                                                                    if b63
+                                                                    then None
+                                                                    else 
+                                                                    if b64
+                                                                    then 
+                                                                    if b65
+                                                                    then 
+                                                                    if b66
+                                                                    then 
+                                                                    if b67
+                                                                    then None
+                                                                    else 
+                                                                    if b68
+                                                                    then 
+                                                                    if b69
+                                                                    then 
+                                                                    if b70
+                                                                    then None
+                                                                    else 
+                                                                    (match s9 with
+                                                                    | [] ->
+                                                                    None
+                                                                    | a8::s10 ->
+                                                                    (* If this appears, you're using Ascii internals. Please don't *)
+ (fun f c ->
+  let n = Char.code c in
+  let h i = (n land (1 lsl i)) <> 0 in
+  f (h 0) (h 1) (h 2) (h 3) (h 4) (h 5) (h 6) (h 7))
+                                                                    (fun b71 b72 b73 b74 b75 b76 b77 b78 ->
+                                                                    if b71
+                                                                    then 
+                                                                    if b72
+                                                                    then None
+                                                                    else 
+                                                                    if b73
+                                                                    then 
+                                                                    if b74
+                                                                    then None
+                                                                    else 
+                                                                    if b75
+                                                                    then None
+                                                                    else 
+                                                                    if b76
+                                                                    then 
+                                                                    if b77
+                                                                    then 
+                                                                    if b78
+                                                                    then None
+                                                                    else 
+                                                                    (match s10 with
+                                                                    | [] ->
+                                                                    None
+                                                                    | a9::s11 ->
+                                                                    (* If this appears, you're using Ascii internals. Please don't *)
+ (fun f c ->
+  let n = Char.code c in
+  let h i = (n land (1 lsl i)) <> 0 in
+  f (h 0) (h 1) (h 2) (h 3) (h 4) (h 5) (h 6) (h 7))
+                                                                    (fun b79 b80 b81 b82 b83 b84 b85 b86 ->
+                                                                    if b79
+                                                                    then None
+                                                                    else 
+                                                                    if b80
+                                                                    then None
+                                                                    else 
+                                                                    if b81
+                                                                    then 
+                                                                    if b82
+                                                                    then None
+                                                                    else 
+                                                                    if b83
+                                                                    then None
+                                                                    else 
+                                                                    if b84
+                                                                    then 
+                                                                    if b85
+                                                                    then 
+                                                                    if b86
+                                                                    then None
+                                                                    else 
+                                                                    (match s11 with
+                                                                    | [] ->
+                                                                    Some (t3,
+                                                                    alt)
+                                                                    | _::_ ->
+                                                                    None)
+                                                                    else None
+                                                                    else None
+                                                                    else None)
+                                                                    a9)
+                                                                    else None
+                                                                    else None
+                                                                    else None
+                                                                    else None)
+                                                                    a8)
+                                                                    else None
+                                                                    else None
+                                                                    else None
+                                                                    else None
+                                                                    else None)
+                                                                    a7)
+                                                                    else None
+                                                                    else None
+                                                                    else None
+                                                                    else None)
+                                                                    a6)
+                                                                    else None
+                                                                    else None
+                                                                    else None
+                                                                    else None)
+                                                                    a5)
+                                                                    else None
+                                                                    else None
+                                                                    else None
+                                                                    else None)
+                                                                    a4)
+                                                                    else None
+                                                                    else None
+                                                                    else None)
+                                                                    a3)
+                                                                    else None
+                                                                    else None
+                                                                    else None
+                                                                    else None
+                                                                    else None)
+                                                                    a2)
+                                                                    else None
+                                                                    else None
+                                                                    else None
+                                                                    else None
+                                                                    else None)
+                                                                    a1)
+                                                                    | None ->
+                                                                    None)
+                                                                    | None ->
+                                                                    None)
+                                                                    | _ :: _ ->
+                                                                    None)))
+                                                                    | _ :: _ ->
+                                                                    None)
+                                                                    | _ ->
+                                                                    None)
+                                                                    | _ ->
+                                                                    None)))
+                                                                    | _ :: _ ->
+                                                                    None)
+                                                                    | _::_ ->
+                                                                    None)
+                                                                    else None
+                                                                    else None
+                                                                    else None
+                                                                    else None
+                                                                    else None)
+                                                                    a0)
+                                                     else None
+                                                else None
+                                           else None
+                                      else None
+                            else None)
+                            a)
+                     | _ -> None))
+               | _ -> None)
+            | _ -> None))
+      | _ -> None)
+   | _ -> None)
+
+(** val mk_opt : node -> node **)
+
+let mk_opt base =
+  Node ((K (KOptChain, N0, N0)), ((Node ((Bln true), [])) :: (base :: [])))
+
+(** val unguard :
+    char list -> (char list * node) list -> char list -> node -> node **)
+
+let rec unguard vp raw t n0 =
+  let is_t = fun x ->
+    match is_temp_ident vp x with
+    | Some s -> eqb0 s t
+    | None -> false
+  in
+  let Node (tg, cs) = n0 in
+  (match tg with
+   | K (k, lo, hi) ->
+     (match k with
+      | KCall ->
+        (match cs with
+         | [] -> Node (tg, (map (unguard vp raw t) cs))
+         | cx :: l ->
+           (match l with
+            | [] -> Node (tg, (map (unguard vp raw t) cs))
+            | callee :: l0 ->
+              (match l0 with
+               | [] -> Node (tg, (map (unguard vp raw t) cs))
+               | n1 :: l1 ->
+                 let Node (t0, args) = n1 in
+                 (match t0 with
+                  | Lst ->
+                    (match l1 with
+                     | [] -> Node (tg, (map (unguard vp raw t) cs))
+                     | targs :: l2 ->
+                       (match l2 with
+                        | [] ->
+                          if is_t callee
+                          then mk_opt n0
+                          else let generic = Node ((K (KCall, lo, hi)),
+                                 (cx :: ((unguard vp raw t callee) :: ((Node
+                                 (Lst,
+                                 (map (unguard vp raw t) args))) :: (targs :: [])))))
+                               in
+                               let Node (t1, cs0) = callee in
+                               (match t1 with
+                                | K (k0, _, _) ->
+                                  (match k0 with
+                                   | KMember ->
+                                     (match cs0 with
+                                      | [] -> generic
+                                      | f :: l3 ->
+                                        (match l3 with
+                                         | [] -> generic
+                                         | callprop :: l4 ->
+                                           (match l4 with
+                                            | [] ->
+                                              (match args with
+                                               | [] -> generic
+                                               | n2 :: rest ->
+                                                 let Node (t2, cs1) = n2 in
+                                                 (match t2 with
+                                                  | Obj ->
+                                                    (match cs1 with
+                                                     | [] -> generic
+                                                     | n3 :: l5 ->
+                                                       let Node (t3, cs2) = n3
+                                                       in
+                                                       (match t3 with
+                                                        | Nul ->
+                                                          (match cs2 with
+                                                           | [] ->
+                                                             (match l5 with
+                                                              | [] -> generic
+                                                              | this :: l6 ->
+                                                                (match l6 with
+                                                                 | [] ->
+                                                                   if 
+                                                                    (&&)
+                                                                    (is_t f)
+                                                                    (match 
+                                                                    ident_name_sym
+                                                                    callprop with
+                                                                    | Some s ->
+                                                                    (match s with
+                                                                    | [] ->
+                                                                    false
+                                                                    | a::s0 ->
+                                                                    (* If this appears, you're using Ascii internals. Please don't *)
+ (fun f c ->
+  let n = Char.code c in
+  let h i = (n land (1 lsl i)) <> 0 in
+  f (h 0) (h 1) (h 2) (h 3) (h 4) (h 5) (h 6) (h 7))
+                                                                    (fun b b0 b1 b2 b3 b4 b5 b6 ->
+                                                                    if b
+                                                                    then 
+                                                                    if b0
+                                                                    then 
+                                                                    if b1
+                                                                    then false
+                                                                    else 
+                                                                    if b2
+                                                                    then false
+                                                                    else 
+                                                                    if b3
+                                                                    then false
+                                                                    else 
+                                                                    if b4
+                                                                    then 
+                                                                    if b5
+                                                                    then 
+                                                                    if b6
+                                                                    then false
+                                                                    else 
+                                                                    (match s0 with
+                                                                    | [] ->
+                                                                    false
+                                                                    | a0::s1 ->
+                                                                    (* If this appears, you're using Ascii internals. Please don't *)
+ (fun f c ->
+  let n = Char.code c in
+  let h i = (n land (1 lsl i)) <> 0 in
+  f (h 0) (h 1) (h 2) (h 3) (h 4) (h 5) (h 6) (h 7))
+                                                                    (fun b7 b8 b9 b10 b11 b12 b13 b14 ->
+                                                                    if b7
+                                                                    then 
+                                                                    if b8
+                                                                    then false
+                                                                    else 
+                                                                    if b9
+                                                                    then false
+                                                                    else 
+                                                                    if b10
+                                                                    then false
+                                                                    else 
+                                                                    if b11
+                                                                    then false
+                                                                    else 
+                                                                    if b12
+                                                                    then 
+                                                                    if b13
+                                                                    then 
+                                                                    if b14
+                                                                    then false
+                                                                    else 
+                                                                    (match s1 with
+                                                                    | [] ->
+                                                                    false
+                                                                    | a1::s2 ->
+                                                                    (* If this appears, you're using Ascii internals. Please don't *)
+ (fun f c ->
+  let n = Char.code c in
+  let h i = (n land (1 lsl i)) <> 0 in
+  f (h 0) (h 1) (h 2) (h 3) (h 4) (h 5) (h 6) (h 7))
+                                                                    (fun b15 b16 b17 b18 b19 b20 b21 b22 ->
+                                                                    if b15
+                                                                    then false
+                                                                    else 
+                                                                    if b16
+                                                                    then false
+                                                                    else 
+                                                                    if b17
+                                                                    then 
+                                                                    if b18
+                                                                    then 
+                                                                    if b19
+                                                                    then false
+                                                                    else 
+                                                                    if b20
+                                                                    then 
+                                                                    if b21
+                                                                    then 
+                                                                    if b22
+                                                                    then false
+                                                                    else 
+                                                                    (match s2 with
+                                                                    | [] ->
+                                                                    false
+                                                                    | a2::s3 ->
+                                                                    (* If this appears, you're using Ascii internals. Please don't *)
+ (fun f c ->
+  let n = Char.code c in
+  let h i = (n land (1 lsl i)) <> 0 in
+  f (h 0) (h 1) (h 2) (h 3) (h 4) (h 5) (h 6) (h 7))
+                                                                    (fun b23 b24 b25 b26 b27 b28 b29 b30 ->
+                                                                    if b23
+                                                                    then false
+                                                                    else 
+                                                                    if b24
+                                                                    then false
+                                                                    else 
+                                                                    if b25
+                                                                    then 
+                                                                    if b26
+                                                                    then 
+                                                                    if b27
+                                                                    then false
+                                                                    else 
+                                                                    if b28
+                                                                    then 
+                                                                    if b29
+                                                                    then 
+                                                                    if b30
+                                                                    then false
+                                                                    else 
+                                                                    (match s3 with
+                                                                    | [] ->
+                                                                    true
+                                                                    | _::_ ->
+                                                                    false)
+                                                                    else false
+                                                                    else false
+                                                                    else false
+                                                                    else false)
+                                                                    a2)
+                                                                    else false
+                                                                    else false
+                                                                    else false
+                                                                    else false)
+                                                                    a1)
+                                                                    else false
+                                                                    else false
+                                                                    else false)
+                                                                    a0)
+                                                                    else false
+                                                                    else false
+                                                                    else false
+                                                                    else false)
+                                                                    a)
+                                                                    | None ->
+                                                                    false)
+                                                                   then 
+                                                                    (match 
+                                                                    assoc_str
+                                                                    t raw with
+                                                                    | Some n4 ->
+                                                                    let Node (
+                                                                    t4, cs3) =
+                                                                    n4
+                                                                    in
+                                                                    (
+                                                                    match t4 with
+                                                                    | K (
+                                                                    k1, mlo,
+                                                                    mhi) ->
+                                                                    (match k1 with
+                                                                    | KMember ->
+                                                                    (match cs3 with
+                                                                    | [] ->
+                                                                    generic
+                                                                    | recv :: l7 ->
+                                                                    (match l7 with
+                                                                    | [] ->
+                                                                    generic
+                                                                    | prop :: l8 ->
+                                                                    (match l8 with
+                                                                    | [] ->
+                                                                    if 
+                                                                    same_receiver
+                                                                    vp recv
+                                                                    this
+                                                                    then 
+                                                                    mk_opt
+                                                                    (Node ((K
+                                                                    (KCall,
+                                                                    lo, hi)),
+                                                                    (cx :: ((Node
+                                                                    ((K
+                                                                    (KMember,
+                                                                    mlo,
+                                                                    mhi)),
+                                                                    (this :: (prop :: [])))) :: ((Node
+                                                                    (Lst,
+                                                                    rest)) :: (targs :: []))))))
+                                                                    else 
+                                                                    generic
+                                                                    | _ :: _ ->
+                                                                    generic)))
+                                                                    | _ ->
+                                                                    generic)
+                                                                    | _ ->
+                                                                    generic)
+                                                                    | None ->
+                                                                    generic)
+                                                                   else 
+                                                                    generic
+                                                                 | _ :: _ ->
+                                                                   generic))
+                                                           | _ :: _ -> generic)
+                                                        | _ -> generic))
+                                                  | _ -> generic))
+                                            | _ :: _ -> generic)))
+                                   | _ -> generic)
+                                | _ -> generic)
+                        | _ :: _ -> Node (tg, (map (unguard vp raw t) cs))))
+                  | _ -> Node (tg, (map (unguard vp raw t) cs))))))
+      | KMember ->
+        (match cs with
+         | [] -> Node (tg, (map (unguard vp raw t) cs))
+         | obj :: l ->
+           (match l with
+            | [] -> Node (tg, (map (unguard vp raw t) cs))
+            | prop :: l0 ->
+              (match l0 with
+               | [] ->
+                 if is_t obj
+                 then if is_dummy (lo, hi)
+                      then mk_opt n0
+                      else Node ((K (KMember, lo, hi)),
+                             ((unguard vp raw t obj) :: (prop :: [])))
+                 else Node ((K (KMember, lo, hi)),
+                        ((unguard vp raw t obj) :: ((unguard vp raw t prop) :: [])))
+               | _ :: _ -> Node (tg, (map (unguard vp raw t) cs)))))
+      | _ -> Node (tg, (map (unguard vp raw t) cs)))
+   | _ -> Node (tg, (map (unguard vp raw t) cs)))
+
+(** val collapse_seq : char list -> node list -> node option **)
+
+let collapse_seq vp es =
+  match split_injected vp es with
+  | Some p ->
+    let (asg, last) = p in
+    (match asg with
+     | [] -> None
+     | _ :: _ ->
+       let env = build_env vp asg [] in
+       (match guard_parts vp last with
+        | Some p0 ->
+          let (t, alt) = p0 in Some (subst vp env (unguard vp asg t alt))
+        | None -> Some (subst vp env (uncall vp asg last))))
+  | None -> None
+
+(** val unarrow : node -> node **)
+
+let unarrow n0 = match n0 with
+| Node (t, cs) ->
+  (match t with
+   | K (k, lo, hi) ->
+     (match k with
+      | KArrow ->
+        (match cs with
+         | [] -> n0
+         | cx :: l ->
+           (match l with
+            | [] -> n0
+            | params :: l0 ->
+              (match l0 with
+               | [] -> n0
+               | n1 :: l1 ->
+                 let Node (t0, cs0) = n1 in
+                 (match t0 with
+                  | K (k0, blo, bhi) ->
+                    (match k0 with
+                     | KBlock ->
+                       (match cs0 with
+                        | [] -> n0
+                        | _ :: l2 ->
+                          (match l2 with
+                           | [] -> n0
+                           | n2 :: l3 ->
+                             let Node (t1, cs1) = n2 in
+                             (match t1 with
+                              | Lst ->
+                                (match cs1 with
+                                 | [] -> n0
+                                 | n3 :: l4 ->
+                                   let Node (t2, cs2) = n3 in
+                                   (match t2 with
+                                    | K (k1, rlo, rhi) ->
+                                      (match k1 with
+                                       | KReturn ->
+                                         (match cs2 with
+                                          | [] -> n0
+                                          | e :: l5 ->
+                                            (match l5 with
+                                             | [] ->
+                                               (match l4 with
+                                                | [] ->
+                                                  (match l3 with
+                                                   | [] ->
+                                                     (match l1 with
+                                                      | [] -> n0
+                                                      | asy :: l6 ->
+                                                        (match l6 with
+                                                         | [] -> n0
+                                                         | gen :: l7 ->
+                                                           (match l7 with
+                                                            | [] -> n0
+                                                            | tp :: l8 ->
+                                                              (match l8 with
+                                                               | [] -> n0
+                                                               | rt :: l9 ->
+                                                                 (match l9 with
+                                                                  | [] ->
+                                                                    if 
+                                                                    (&&)
+                                                                    ((&&)
+                                                                    (is_dummy
+                                                                    (blo,
+                                                                    bhi))
+                                                                    (is_dummy
+                                                                    (rlo,
+                                                                    rhi)))
+                                                                    (negb
+                                                                    (
+                                                                    let Node (
+                                                                    t3, _) = e
+                                                                    in
+                                                                    (
+                                                                    match t3 with
+                                                                    | Nul ->
+                                                                    true
+                                                                    | _ ->
+                                                                    false)))
+                                                                    then 
+                                                                    Node ((K
+                                                                    (KArrow,
+                                                                    lo, hi)),
+                                                                    (cx :: (params :: (e :: (asy :: (gen :: (tp :: (rt :: []))))))))
+                                                                    else n0
+                                                                  | _ :: _ ->
+                                                                    n0)))))
+                                                   | _ :: _ -> n0)
+                                                | _ :: _ -> n0)
+                                             | _ :: _ -> n0))
+                                       | _ -> n0)
+                                    | _ -> n0))
+                              | _ -> n0)))
+                     | _ -> n0)
+                  | _ -> n0))))
+      | _ -> n0)
+   | _ -> n0)
+
+(** val strip_let : char list -> node list -> node list **)
+
+let strip_let vp stmts =
+  app (directives_of stmts)
+    (match after_directives stmts with
+     | [] -> []
+     | s :: rest -> if is_injected_let vp s then rest else s :: rest)
+
+(** val post : char list -> node -> node **)
+
+let post vp n0 = match n0 with
+| Node (t, cs) ->
+  (match t with
+   | K (k, lo, hi) ->
+     (match k with
+      | KBlock ->
+        (match cs with
+         | [] -> n0
+         | cx :: l ->
+           (match l with
+            | [] -> n0
+            | n1 :: l0 ->
+              let Node (t0, stmts) = n1 in
+              (match t0 with
+               | Lst ->
+                 (match l0 with
+                  | [] ->
+                    Node ((K (KBlock, lo, hi)), (cx :: ((Node (Lst,
+                      (strip_let vp stmts))) :: [])))
+                  | _ :: _ -> n0)
+               | _ -> n0)))
+      | KCall ->
+        (match hook_call n0 with
+         | Some p ->
+           let (_, l) = p in
+           (match l with
+            | [] -> n0
+            | a0 :: _ -> (match arg_expr a0 with
+                          | Some e -> e
+                          | None -> n0))
+         | None -> n0)
+      | KArrow -> unarrow n0
+      | KParen ->
+        (match cs with
+         | [] -> n0
+         | n1 :: l ->
+           let Node (t0, cs0) = n1 in
+           (match t0 with
+            | K (k0, _, _) ->
+              (match k0 with
+               | KSeq ->
+                 (match cs0 with
+                  | [] -> n0
+                  | n2 :: l0 ->
+                    let Node (t1, es) = n2 in
+                    (match t1 with
+                     | Lst ->
+                       (match l0 with
+                        | [] ->
+                          (match l with
+                           | [] ->
+                             (match collapse_seq vp es with
+                              | Some e -> e
+                              | None -> n0)
+                           | _ :: _ -> n0)
+                        | _ :: _ -> n0)
+                     | _ -> n0))
+               | _ -> n0)
+            | _ -> n0))
+      | _ -> n0)
+   | _ -> n0)
+
+(** val erase_node : char list -> node -> node **)
+
+let rec erase_node vp = function
+| Node (t, cs) -> post vp (Node (t, (map (erase_node vp) cs)))
+
+(** val strip_prologue : node list -> node list -> node list **)
+
+let strip_prologue prologue body =
+  app (directives_of body)
+    (match prologue with
+     | [] -> after_directives body
+     | _ :: _ ->
+       (match strip_prefix prologue (after_directives body) with
+        | Some rest -> rest
+        | None -> after_directives body))
+
+(** val erase : char list -> node list -> bool -> node -> node **)
+
+let erase vp prologue modified prog =
+  let Node (t, cs) = erase_node vp prog in
+  (match t with
+   | K (k, lo, hi) ->
+     (match cs with
+      | [] -> Node ((K (k, lo, hi)), [])
+      | n0 :: rest ->
+        let Node (t0, body) = n0 in
+        (match t0 with
+         | Lst ->
+           Node ((K (k, lo, hi)), ((Node (Lst,
+             (if modified then strip_prologue prologue body else body))) :: rest))
+         | x -> Node ((K (k, lo, hi)), ((Node (x, body)) :: rest))))
+   | x -> Node (x, cs))
+
+(** val lower_post : bool -> node -> node **)
+
+let lower_post plus n0 = match n0 with
+| Node (t, cs) ->
+  (match t with
+   | K (k, lo, hi) ->
+     (match k with
+      | KAssign ->
+        (match cs with
+         | [] -> n0
+         | n1 :: l ->
+           let Node (t0, cs0) = n1 in
+           (match t0 with
+            | Str s ->
+              (match s with
+               | [] -> n0
+               | a::s0 ->
+                 (* If this appears, you're using Ascii internals. Please don't *)
+ (fun f c ->
+  let n = Char.code c in
+  let h i = (n land (1 lsl i)) <> 0 in
+  f (h 0) (h 1) (h 2) (h 3) (h 4) (h 5) (h 6) (h 7))
+                   (fun b b0 b1 b2 b3 b4 b5 b6 ->
+                   if b
+                   then if b0
+                        then if b1
+                             then n0
+                             else if b2
+                                  then if b3
+                                       then n0
+                                       else if b4
+                                            then if b5
+                                                 then n0
+                                                 else if b6
+                                                      then n0
+                                                      else (match s0 with
+                                                            | [] -> n0
+                                                            | a0::s1 ->
+                                                              (* If this appears, you're using Ascii internals. Please don't *)
+ (fun f c ->
+  let n = Char.code c in
+  let h i = (n land (1 lsl i)) <> 0 in
+  f (h 0) (h 1) (h 2) (h 3) (h 4) (h 5) (h 6) (h 7))
+                                                                (fun b7 b8 b9 b10 b11 b12 b13 b14 ->
+                                                                if b7
+                                                                then 
+                                                                  if b8
+                                                                  then n0
+                                                                  else 
+                                                                    if b9
+                                                                    then 
+                                                                    if b10
+                                                                    then 
+                                                                    if b11
+                                                                    then 
+                                                                    if b12
+                                                                    then 
+                                                                    if b13
+                                                                    then n0
+                                                                    else 
+                                                                    if b14
+                                                                    then n0
+                                                                    else 
+                                                                    (match s1 with
+                                                                    | [] ->
+                                                                    (match cs0 with
+                                                                    | [] ->
+                                                                    (match l with
+                                                                    | [] -> n0
+                                                                    | lhs :: l0 ->
+                                                                    (match l0 with
+                                                                    | [] -> n0
+                                                                    | rhs :: l1 ->
+                                                                    (match l1 with
+                                                                    | [] ->
+                                                                    if plus
+                                                                    then 
+                                                                    let target_expr =
+                                                                    let Node (
+                                                                    t1, cs1) =
+                                                                    lhs
+                                                                    in
+                                                                    (
+                                                                    match t1 with
+                                                                    | K (
+                                                                    k0, l2, h) ->
+                                                                    (match k0 with
+                                                                    | KIdent ->
+                                                                    (match cs1 with
+                                                                    | [] ->
+                                                                    lhs
+                                                                    | cx :: l3 ->
+                                                                    (match l3 with
+                                                                    | [] ->
+                                                                    lhs
+                                                                    | sym :: l4 ->
+                                                                    (match l4 with
+                                                                    | [] ->
+                                                                    lhs
+                                                                    | opt :: l5 ->
+                                                                    (match l5 with
+                                                                    | [] ->
+                                                                    lhs
+                                                                    | _ :: l6 ->
+                                                                    (match l6 with
+                                                                    | [] ->
+                                                                    Node ((K
+                                                                    (KIdent,
+                                                                    l2, h)),
+                                                                    (cx :: (sym :: (opt :: []))))
+                                                                    | _ :: _ ->
+                                                                    lhs)))))
+                                                                    | _ -> lhs)
+                                                                    | _ -> lhs)
+                                                                    in
+                                                                    Node ((K
+                                                                    (KAssign,
+                                                                    lo, hi)),
+                                                                    ((Node
+                                                                    ((Str
+                                                                    ('='::[])),
+                                                                    [])) :: (lhs :: ((Node
+                                                                    ((K
+                                                                    (KBin,
+                                                                    lo, hi)),
+                                                                    ((Node
+                                                                    ((Str
+                                                                    ('+'::[])),
+                                                                    [])) :: (target_expr :: (rhs :: []))))) :: []))))
+                                                                    else n0
+                                                                    | _ :: _ ->
+                                                                    n0)))
+                                                                    | _ :: _ ->
+                                                                    n0)
+                                                                    | _::_ ->
+                                                                    n0)
+                                                                    else n0
+                                                                    else n0
+                                                                    else n0
+                                                                    else n0
+                                                                else n0)
+                                                                a0)
+                                            else n0
+                                  else n0
+                        else n0
+                   else n0)
+                   a)
+            | _ -> n0))
+      | KOptChain ->
+        (match cs with
+         | [] -> n0
+         | n1 :: l ->
+           let Node (t0, cs0) = n1 in
+           (match t0 with
+            | Bln b ->
+              if b
+              then n0
+              else (match cs0 with
+                    | [] ->
+                      (match l with
+                       | [] -> n0
+                       | base :: l0 ->
+                         (match l0 with
+                          | [] -> base
+                          | _ :: _ -> n0))
+                    | _ :: _ -> n0)
+            | _ -> n0))
+      | _ -> n0)
+   | _ -> n0)
+
+(** val lower : bool -> node -> node **)
+
+let rec lower plus = function
+| Node (t, cs) -> lower_post plus (Node (t, (map (lower plus) cs)))
+
+(** val erase_ok :
+    char list -> node list -> bool -> bool -> node -> node -> bool **)
+
+let erase_ok vp prologue plus modified pin pout =
+  node_eqb_nospan (lower plus (erase vp prologue modified pout))
+    (lower plus pin)
+
+(** val first_diff_nospan : node -> node -> nat list option **)
+
+let rec first_diff_nospan a b =
+  let Node (ta, ca) = a in
+  let Node (tb, cb) = b in
+  if negb (tag_eqb_nospan ta tb)
+  then Some []
+  else let rec go i x y =
+         match x with
+         | [] -> (match y with
+                  | [] -> None
+                  | _ :: _ -> Some (i :: []))
+         | p :: x' ->
+           (match y with
+            | [] -> Some (i :: [])
+            | q :: y' ->
+              (match first_diff_nospan p q with
+               | Some path -> Some (i :: path)
+               | None -> go (S i) x' y'))
+       in go O ca cb
